@@ -102,9 +102,10 @@ theorem step_inv (h : Holder) (op : Op) (hi : InvS h.secs) : InvS (step h op).se
   | relocate b => exact InvS.transfer (relocate_keys h b) hi
 
 theorem init_inv : InvS init.secs := by
-  refine ⟨?_, ?_, ?_⟩
+  refine ⟨?_, ?_, ?_, ?_⟩
   · simp [init, OrderSorted]
   · simp [init, textSection]
+  · simp [init]
   · exact ⟨textSection, [], rfl, rfl, rfl, rfl, by simp⟩
 
 theorem run_inv (ops : List Op) : InvS (run ops).secs := by
